@@ -275,8 +275,82 @@ def bfs(init_flags, ops, max_depth, rep):
           'samples': samples}
 
 
+# ---- "... and the _asdict() snapshot stored in test metadata always agree" -------------------------------------------
+MD_OPS = [('load', 'st-1'), ('load', 'st-2'), ('load_noover', 'st-3'), ('reset', None), ('sar', 'st-4')]
+
+
+def metadata_sequences(tier):
+  import itertools  # pylint: disable=g-import-not-at-top
+  depth = 3 if tier == 'quick' else 4
+  for d in range(1, depth + 1):
+    for seq in itertools.product(MD_OPS, repeat=d):
+      yield list(seq)
+
+
+def run_metadata_sequence(seq):
+  """One Test object executed after every configuration operation of seq (a station loop that is reconfigured between
+  DUTs); the record of each run must carry the configuration as it is *for that run*."""
+  from vf import htf, progs  # pylint: disable=g-import-not-at-top
+  L = progs.lib()
+  h, conf = L['htf'], L['conf']
+
+  def body(test):
+    pass
+
+  body.__name__ = 'mdphase'
+  test = h.Test(h.PhaseOptions(name='mdphase')(body))
+  cap = htf.Capture()
+  test.add_output_callbacks(cap)
+  bad = []
+  try:
+    for k, (op, val) in enumerate(seq):
+      def run_once():
+        want = dict(conf._asdict())  # pylint: disable=protected-access
+        del cap.records[:]
+        test.execute()
+        got = cap.records[0].metadata.get('config')
+        if got != want:
+          diff = sorted(key for key in set(got or {}) | set(want) if (got or {}).get(key) != want.get(key))
+          bad.append(('metadata-snapshot', 'run %d (after %s %r): metadata config differs from the configuration of that run '
+                      'in %r: snapshot %r, configuration %r' % (k, op, val, diff, {x: (got or {}).get(x) for x in diff},
+                                                                 {x: want.get(x) for x in diff})))
+      if op == 'load':
+        conf.load(station_id=val)
+        run_once()
+      elif op == 'load_noover':
+        conf.load(station_id=val, _override=False)
+        run_once()
+      elif op == 'reset':
+        conf.reset()
+        run_once()
+      else:
+        conf.save_and_restore(run_once, station_id=val)()
+  finally:
+    conf.reset()
+  return bad
+
+
+def _md_work(item):
+  tier, start, step = item
+  n, viols = 0, []
+  for i, seq in enumerate(metadata_sequences(tier)):
+    if i % step != start:
+      continue
+    n += 1
+    for kind, what in run_metadata_sequence(seq):
+      sig = '%s:%s' % (kind, '>'.join('%s(%s)' % (o, v) for o, v in seq))
+      viols.append((sig, what, {'md_seq': [list(x) for x in seq]}))
+  return n, viols
+
+
 def run(tier):
   rep = common.Report(PID, tier, 'model_checking')
+  mres = common.pmap(_md_work, [(tier, s, 8) for s in range(8)], chunksize=1)
+  for r in mres:
+    rep.merge_violations(r[1])
+  nm = sum(r[0] for r in mres)
+  rep.add_part('metadata snapshot of repeated runs', states=nm, transitions=nm, traces_validated_against_impl=nm, exhaustive=True,
+               samples=[{'ops': [list(x) for x in MD_OPS], 'sequences up to length': 3 if tier == 'quick' else 4}])
   ops = alphabet(tier)
   inits = [[], [['a', 5], ['u', 6]]]
   if tier == 'thorough':
@@ -304,6 +378,11 @@ def run(tier):
 
 
 def replay(art):
+  if 'md_seq' in art.get('replay', {}):
+    bad = run_metadata_sequence([tuple(x) for x in art['replay']['md_seq']])
+    for b in bad:
+      print('VIOLATED', b)
+    return 1 if bad else 0
   r = art['replay']
   viols, _ = run_history(r['init_flags'], r['ops'])
   for v in viols:
